@@ -1648,17 +1648,12 @@ stat_grid_h!(stat_grid_2x1x1x1x1, 5, 2, [2, 1, 1, 1, 1], 20);
 
 //@@END STAT_GRID_CASES@@
 
-/// Hudson's Fst with UNEQUAL sample sizes (n1 - 1 != n2 - 1), and its symmetry under swapping
-/// the two populations
-// @harness props=C06,C14 tier=quick group=f64 bounds=3x4(and-4x3),cells=0..3,tolerance=1e-9 timeout=2400
-#[kani::proof]
-#[kani::unwind(16)]
-#[kani::stub(f64::powi, powi_model)]
-fn stat_def_fst_3x4() {
+/// Hudson's Fst with UNEQUAL sample sizes (n1 - 1 != n2 - 1); `swap` also checks the transposed
+/// spectrum (symmetry under swapping the two populations)
+fn fst_unequal(bound: u8, swap: bool) {
     const A: usize = 3;
     const B: usize = 4;
-    let d: [u8; 12] = small::<12>(4);
-    let sfs = sfs_of([A, B], &d);
+    let d: [u8; 12] = small::<12>(bound);
     let (n1, n2) = (A - 1, B - 1);
     let mut num = 0.0f64;
     let mut den = 0.0f64;
@@ -1679,17 +1674,37 @@ fn stat_def_fst_3x4() {
         }
         i += 1;
     }
-    let swapped = sfs_of([B, A], &t);
-    match (sfs.fst(), swapped.fst()) {
-        (Ok(v), Ok(w)) => {
-            assert!((den == 0.0 && v != v) || (den != 0.0 && close(v * den, num)));
-            assert!((den == 0.0 && w != w) || (den != 0.0 && close(w * den, num)));
-        }
+    let sfs = if swap { sfs_of([B, A], &t) } else { sfs_of([A, B], &d) };
+    match sfs.fst() {
+        Ok(v) => assert!((den == 0.0 && v != v) || (den != 0.0 && close(v * den, num))),
         _ => assert!(false),
     }
     kani::cover!(den > 0.0, "non-trivial");
-    core::mem::forget(swapped);
     core::mem::forget(sfs);
+}
+
+// @harness props=C06,C14 tier=quick group=f64 bounds=3x4,cells=0..1,tolerance=1e-9 timeout=1800
+#[kani::proof]
+#[kani::unwind(16)]
+#[kani::stub(f64::powi, powi_model)]
+fn stat_def_fst_3x4() {
+    fst_unequal(2, false)
+}
+
+// @harness props=C14,C06 tier=quick group=f64 bounds=4x3(transposed-3x4),cells=0..1,tolerance=1e-9 timeout=1800
+#[kani::proof]
+#[kani::unwind(16)]
+#[kani::stub(f64::powi, powi_model)]
+fn stat_def_fst_4x3_swapped() {
+    fst_unequal(2, true)
+}
+
+// @harness props=C06,C14 tier=thorough group=f64 bounds=3x4,cells=0..3,tolerance=1e-9 timeout=3600
+#[kani::proof]
+#[kani::unwind(16)]
+#[kani::stub(f64::powi, powi_model)]
+fn stat_def_fst_3x4_wide() {
+    fst_unequal(4, false)
 }
 
 /// spectra whose total is below one (frequencies, masked spectra): cells k/8
